@@ -4,6 +4,26 @@ mod seqops;
 
 use std::io::{BufRead, Write};
 
+/// Counting allocator: live bytes, used to observe leaks when a simulation is dropped.
+pub struct CountAlloc;
+pub static LIVE_BYTES: std::sync::atomic::AtomicIsize = std::sync::atomic::AtomicIsize::new(0);
+unsafe impl std::alloc::GlobalAlloc for CountAlloc {
+    unsafe fn alloc(&self, l: std::alloc::Layout) -> *mut u8 {
+        LIVE_BYTES.fetch_add(l.size() as isize, std::sync::atomic::Ordering::Relaxed);
+        std::alloc::System.alloc(l)
+    }
+    unsafe fn dealloc(&self, p: *mut u8, l: std::alloc::Layout) {
+        LIVE_BYTES.fetch_sub(l.size() as isize, std::sync::atomic::Ordering::Relaxed);
+        std::alloc::System.dealloc(p, l)
+    }
+    unsafe fn realloc(&self, p: *mut u8, l: std::alloc::Layout, new_size: usize) -> *mut u8 {
+        LIVE_BYTES.fetch_add(new_size as isize - l.size() as isize, std::sync::atomic::Ordering::Relaxed);
+        std::alloc::System.realloc(p, l, new_size)
+    }
+}
+#[global_allocator]
+static GLOBAL: CountAlloc = CountAlloc;
+
 fn main() {
     let args: Vec<String> = std::env::args().collect();
     let mode = args.get(1).map(|s| s.as_str()).unwrap_or("seq");
@@ -40,7 +60,12 @@ fn main() {
                             return "ERR not-a-sim-case".to_string();
                         }
                         let case = bench::parse(&w[1..]);
-                        bench::run(&case)
+                        let before = LIVE_BYTES.load(std::sync::atomic::Ordering::SeqCst);
+                        let mut out = bench::run(&case);
+                        // everything the case created has been dropped by now, except the result string
+                        let after = LIVE_BYTES.load(std::sync::atomic::Ordering::SeqCst) - out.capacity() as isize;
+                        out.push_str(&format!(" A:{}", after - before));
+                        out
                     });
                     let _ = tx.send(match r {
                         Ok(s) => s,
